@@ -86,6 +86,7 @@ func (fc *FnCtx) addrToRef(a *Addr) *Term {
 	}
 	// interior pointer: fresh, and remember that the root may be written through it
 	r := fc.tb.Fresh("iptr", "Ref")
+	fc.hyps = append(fc.hyps, fc.tb.Not(fc.tb.Eq(r, fc.tb.Const("null", "Ref")))) // an address is never nil
 	switch a.Kind {
 	case aHeap, aElem, aGlobal:
 		fc.escapedRoots = append(fc.escapedRoots, a.Key)
